@@ -6,6 +6,7 @@ import (
 	"sort"
 	"testing"
 
+	"github.com/onheap/eval"
 	"pgregory.net/rapid"
 
 	m "verifharness/model"
@@ -18,7 +19,17 @@ type C02Case struct {
 	Tree  *m.Node     `json:"tree"`
 	Costs []CostEntry `json:"costs,omitempty"`
 	Src   string      `json:"src"`
+	// RawVars: the fetcher hands some integers over as Go int (a fetcher is free to do so; only
+	// eq/ne accept such a value). RawConst: a constant registered with a raw Go integer type is
+	// compared with the literal of the same number (ConstantMap values are not normalised, so the
+	// comparison is false - in every configuration).
+	RawVars  bool `json:"raw_vars,omitempty"`
+	RawConst bool `json:"raw_const,omitempty"`
 }
+
+const rawSentinel = 777001
+
+var rawSentinels = []interface{}{int(rawSentinel), int32(rawSentinel), uint32(rawSentinel), uint64(rawSentinel), int(rawSentinel)}
 
 var wildCosts = []float64{1, 0, -1, 5, 7, 10, 50, 1000, -100, math.NaN(), math.Inf(1), math.Inf(-1), 1e308, -1e308}
 var finiteCosts = wildCosts[:9]
@@ -66,11 +77,33 @@ func genC02(t *rapid.T) C02Case {
 		Failing: rapid.Bool().Draw(t, "failing"),
 		Custom:  true, Consts: true, Aliases: true, BoolW: 6,
 	}}
-	tree := wrapRoot(g.Program(rootTy(t)))
+	ty := rootTy(t)
+	tree := wrapRoot(g.Program(ty))
 	fixEmptyLists(tree)
 	u := UniverseFor(t, tree, rapid.IntRange(0, 4).Draw(t, "collide") == 0)
 	u.Stateless = drawStateless(t)
-	return C02Case{U: *u, Tree: tree, Costs: genCosts(t, tree, wildCosts), Src: m.Render(tree)}
+	c := C02Case{U: *u}
+	switch rapid.IntRange(0, 7).Draw(t, "rawkind") {
+	case 0:
+		c.RawVars = true
+	case 1:
+		c.RawConst = true
+		raw := rapid.SampledFrom(rawSentinels).Draw(t, "rawconst")
+		c.U.Consts = append(c.U.Consts, ConstDecl{Name: "KRAW", Val: m.V{X: raw}})
+		k := &m.Node{Kind: m.KConst, Name: "KRAW", Val: raw}
+		cmp := m.Op(rapid.SampledFrom([]string{"eq", "=", "==", "ne", "!="}).Draw(t, "rawcmp"), k, m.Const(int64(rawSentinel)))
+		if rapid.Bool().Draw(t, "rawswap") {
+			cmp.Kids[0], cmp.Kids[1] = cmp.Kids[1], cmp.Kids[0]
+		}
+		if ty == m.TBool {
+			tree = m.Op(rapid.SampledFrom([]string{"and", "or", "eq", "ne"}).Draw(t, "rawjoin"), cmp, tree)
+		} else {
+			other := map[m.Ty]*m.Node{m.TInt: m.Const(int64(424242)), m.TStr: m.Const("rawelse"), m.TIntList: m.Const([]int64{4, 2}), m.TStrList: m.Const([]string{"r"})}[ty]
+			tree = m.If(cmp, tree, other)
+		}
+	}
+	c.Tree, c.Costs, c.Src = tree, genCosts(t, tree, wildCosts), m.Render(tree)
+	return c
 }
 
 func checkC02(c C02Case, r *Rec) *Violation {
@@ -91,8 +124,11 @@ func checkC02(c C02Case, r *Rec) *Violation {
 		}
 		runs[mask] = run
 		// (e) outcome equals the reference run on the configuration's own dump
-		if _, v := run.checkAgainstOwnDump("C02", src, u); v != nil {
-			return v
+		// (a raw-typed constant prints like the int64 literal of the same number: the dump cannot be read back faithfully)
+		if !c.RawConst {
+			if _, v := run.checkAgainstOwnDump("C02", src, u); v != nil {
+				return v
+			}
 		}
 		// (d) the other ways of expressing the same subset give the same program
 		// (one of the six alternative spellings per mask, rotating with the case, so
@@ -156,6 +192,35 @@ func checkC02(c C02Case, r *Rec) *Violation {
 		}
 	}
 
+	// (f) a fetcher that hands integers over as Go int: whatever the engine makes of such values
+	// (only eq/ne accept them), it makes the same of them in every configuration
+	if c.RawVars {
+		var outs [16]Outcome
+		for mask := 0; mask < 16; mask++ {
+			f := NewFetcher(u, runs[mask].Cfg, runs[mask].Log)
+			f.Raw = true
+			e := runs[mask].Expr
+			outs[mask] = Safe(func() (eval.Value, error) { return e.Eval(f.Ctx()) })
+			if outs[mask].Panic != nil {
+				return Violf("C02: Eval panics with un-normalised integer bindings\n%s\n%v", runs[mask].describe(src, u), outs[mask])
+			}
+			// ... namely what the reference makes of them on the configuration's own dump: a foreign
+			// value, equal to nothing but itself and rejected by every other operator
+			rr := &m.Env{Vars: rawBound(u.Bound()), Fail: u.Fail(), Custom: customModel(), Fast: mask&MaskFast != 0}
+			if rrv, rrerr := rr.Eval(runs[mask].DTree); rrerr != m.ErrOptionalFetch && !Agrees(outs[mask], rrv, rrerr) {
+				return Violf("C02: with un-normalised integer bindings (Go int / int32 handed over by the fetcher) Eval disagrees with the reference on the program Dump shows\n%s\nraw binding=%v\nengine=%v\nreference(on dump)=%s", runs[mask].describe(src, u), rawBound(u.Bound()), outs[mask], refString(rrv, rrerr))
+			}
+			for m2 := 0; m2 < mask; m2++ {
+				if outs[mask].Err == nil && outs[m2].Err == nil && !m.EqualVal(outs[mask].Val, outs[m2].Val) {
+					return Violf("C02: with un-normalised integer bindings (Go int / int32 handed over by the fetcher) configurations %s and %s both return a value but not the same\nsrc=%s\nbinding=%v\n%s -> %v\n%s\n%s -> %v\n%s", maskName(mask), maskName(m2), src, describeU(u), maskName(mask), outs[mask], runs[mask].Dump, maskName(m2), outs[m2], runs[m2].Dump)
+				}
+			}
+		}
+		r.Class("raw-integer-bindings")
+	}
+	if c.RawConst {
+		r.Class("raw-typed-constant-compared")
+	}
 	if eagerOK {
 		r.Class("all-reachable-succeed")
 	}
